@@ -104,8 +104,8 @@ theorem binaryOp_no_panic (k : BinKind) (l r : Val) (hh : ¬ hugeRepeat k l r) :
         intro ⟨ho, hzero⟩
         apply hz
         rcases ho with rfl | rfl <;> simp [hzero]
-      | gt => simp [applyBin]
-      | ge => simp [applyBin]
+      | gt => split <;> simp [applyBin]
+      | ge => split <;> simp [applyBin]
   · split
     · split <;> simp [applyBin]
     · split <;> simp [applyBin]
@@ -164,8 +164,19 @@ theorem string_concat (a b : String) : binaryOp (.arith .add) (.str a) (.str b) 
 
 /-! ## relational operators: exact on integers, IEEE otherwise, consistent with `==` -/
 
+/-- on two numbers of which both or neither are bytes, `>`/`>=` go to the comparison -/
+theorem binaryOp_rel (k : BinKind) (l r : Val) (hk : k = .gt ∨ k = .ge) (hl : isNumKind l = true) (hr : isNumKind r = true)
+    (hb : isByteVal l = isByteVal r) : binaryOp k l r = applyBin k l r := by
+  rcases hk with rfl | rfl <;> simp [binaryOp, hl, hr, hb]
+
+/-- ordering a byte against an integer or a float is a runtime error -/
+theorem byte_number_order_is_error (k : BinKind) (l r : Val) (hk : k = .gt ∨ k = .ge) (hl : isNumKind l = true) (hr : isNumKind r = true)
+    (hb : isByteVal l ≠ isByteVal r) : binaryOp k l r = .err "Invalid comparison of a byte and a number." := by
+  rcases hk with rfl | rfl <;> simp [binaryOp, hl, hr, hb]
+
 theorem int_gt (a b : Int64) : binaryOp .gt (.int a) (.int b) = .ok (.bool (decide (b.toInt < a.toInt))) := by
-  simp only [binaryOp, isNumKind, Bool.and_self, applyBin, Val.gt, Val.partialCmp, cmpOf]
+  rw [binaryOp_rel .gt (.int a) (.int b) (.inl rfl) rfl rfl rfl]
+  simp only [applyBin, Val.gt, Val.partialCmp, cmpOf]
   by_cases h1 : a < b
   · have : ¬ b.toInt < a.toInt := by have := Int64.lt_iff_toInt_lt.mp h1; omega
     simp [h1, this]
@@ -180,7 +191,8 @@ theorem int_gt (a b : Int64) : binaryOp .gt (.int a) (.int b) = .ok (.bool (deci
 theorem mixed_is_float (a : Int64) (b : Float) :
     binaryOp .gt (.int a) (.float b) = .ok (.bool ((Val.float a.toFloat).gt (.float b))) ∧
     (Val.int a).eq (.float b) = (Val.float a.toFloat).eq (.float b) := by
-  simp [binaryOp, isNumKind, applyBin, Val.gt, Val.partialCmp, Val.eq]
+  rw [binaryOp_rel .gt (.int a) (.float b) (.inl rfl) rfl rfl rfl]
+  simp [applyBin, Val.gt, Val.partialCmp, Val.eq]
 
 /-- on integers: `a >= b ∧ b >= a ↔ a == b` -/
 theorem rel_consistent_with_eq_int (a b : Int64) :
@@ -258,7 +270,8 @@ theorem i64_gt_iff (a b : Int64) : b < a ↔ ¬ a < b ∧ a ≠ b := by
 /-- `>=` on integers is the exact comparison -/
 theorem int_ge (a b : Int64) :
     binaryOp .ge (.int a) (.int b) = .ok (.bool (decide (b.toInt < a.toInt) || decide (a.toInt = b.toInt))) := by
-  simp only [binaryOp, isNumKind, Bool.and_self, applyBin, Val.ge, Val.partialCmp]
+  rw [binaryOp_rel .ge (.int a) (.int b) (.inr rfl) rfl rfl rfl]
+  simp only [applyBin, Val.ge, Val.partialCmp]
   rw [cmpOf_ge a b (i64_gt_iff a b)]
   simp [Int64.lt_iff_toInt_lt, Int64.toInt_inj]
 
@@ -414,15 +427,13 @@ theorem float_arith_row (op : ArithOp) (l r : Val) (x y : Float)
   float_arith_rowZ op l r x y (y == 0.0) hl hr ha hz
 
 theorem float_rel_row (l r : Val) (x y : Float)
-    (hl : isNumKind l = true) (hr : isNumKind r = true) (hc : l.partialCmp r = cmpFloat x y) :
+    (hl : isNumKind l = true) (hr : isNumKind r = true) (hb : isByteVal l = isByteVal r) (hc : l.partialCmp r = cmpFloat x y) :
     binaryOp .gt l r = .ok (.bool (decide (x > y))) ∧ binaryOp .ge l r = .ok (.bool (decide (x ≥ y))) := by
-  have e1 : (BinKind.gt == BinKind.arith ArithOp.div || BinKind.gt == BinKind.arith ArithOp.rem) = false := by decide
-  have e2 : (BinKind.ge == BinKind.arith ArithOp.div || BinKind.ge == BinKind.arith ArithOp.rem) = false := by decide
   constructor
-  · simp only [binaryOp, hl, hr, Bool.and_self, if_true, e1, Bool.false_and, Bool.false_eq_true, if_false,
-      applyBin, Val.gt, hc, float_gt_model]
-  · simp only [binaryOp, hl, hr, Bool.and_self, if_true, e2, Bool.false_and, Bool.false_eq_true, if_false,
-      applyBin, Val.ge, hc, float_ge_model]
+  · rw [binaryOp_rel .gt l r (.inl rfl) hl hr hb]
+    simp only [applyBin, Val.gt, hc, float_gt_model]
+  · rw [binaryOp_rel .ge l r (.inr rfl) hl hr hb]
+    simp only [applyBin, Val.ge, hc, float_ge_model]
 
 theorem row_float_float (op : Operator) (a b : Float) :
     Agrees (execOperator op (.float a) (.float b)) (Spec.binary (specOp op) (.float a) (.float b)) := by
@@ -434,8 +445,8 @@ theorem row_float_float (op : Operator) (a b : Float) :
   · exact float_arith_row .rem (.float a) (.float b) a b rfl rfl (fun _ => rfl) rfl
   · exact agrees_val _
   · exact agrees_val _
-  · exact (float_rel_row (.float a) (.float b) a b rfl rfl rfl).1
-  · exact (float_rel_row (.float a) (.float b) a b rfl rfl rfl).2
+  · exact (float_rel_row (.float a) (.float b) a b rfl rfl rfl rfl).1
+  · exact (float_rel_row (.float a) (.float b) a b rfl rfl rfl rfl).2
   all_goals exact agrees_err _
 
 theorem row_int_float (op : Operator) (a : Int64) (b : Float) :
@@ -448,8 +459,8 @@ theorem row_int_float (op : Operator) (a : Int64) (b : Float) :
   · exact float_arith_row .rem (.int a) (.float b) a.toFloat b rfl rfl (fun _ => rfl) rfl
   · exact agrees_val _
   · exact agrees_val _
-  · exact (float_rel_row (.int a) (.float b) a.toFloat b rfl rfl rfl).1
-  · exact (float_rel_row (.int a) (.float b) a.toFloat b rfl rfl rfl).2
+  · exact (float_rel_row (.int a) (.float b) a.toFloat b rfl rfl rfl rfl).1
+  · exact (float_rel_row (.int a) (.float b) a.toFloat b rfl rfl rfl rfl).2
   all_goals exact agrees_err _
 
 /-- `float / int`, `float % int`: the divisor is an integer, and it is zero when the integer is —
@@ -465,8 +476,8 @@ theorem row_float_int (op : Operator) (a : Float) (b : Int64) :
   · exact float_arith_rowZ .rem (.float a) (.int b) a b.toFloat _ rfl rfl (fun _ => rfl) (i64_eq_zero b)
   · exact agrees_val _
   · exact agrees_val _
-  · exact (float_rel_row (.float a) (.int b) a b.toFloat rfl rfl rfl).1
-  · exact (float_rel_row (.float a) (.int b) a b.toFloat rfl rfl rfl).2
+  · exact (float_rel_row (.float a) (.int b) a b.toFloat rfl rfl rfl rfl).1
+  · exact (float_rel_row (.float a) (.int b) a b.toFloat rfl rfl rfl rfl).2
   all_goals exact agrees_err _
 
 example (x : Float) : Agrees (execOperator .div (.float x) (.int 0)) .error := row_float_int .div x 0
